@@ -135,6 +135,25 @@ theorem intOfBytes_roundtrip (n : Nat) (hn : IntLen n) (e : Endianness) (s : Sig
     repeat' split at hr
     all_goals (repeat' split) <;> omega
 
+theorem intFromSlice_of_len (n : Nat) (hn : IntLen n) (bs : Bytes) (hl : bs.length = n)
+    (e : Endianness) (s : Sign) : intFromSlice bs e s = .ok (intOfBytes n bs e s) := by
+  rcases hn with rfl | rfl | rfl | rfl <;> simp only [intFromSlice, hl]
+
+theorem image_length (n : Nat) (e : Endianness) (v : Int) : (image n e v).length = n := by
+  cases e <;> simp [image]
+
+/-- bits below `8n` of the decoded word are the bits of the unsigned reading -/
+theorem intOfBytes_getLsbD (n : Nat) (bs : Bytes) (e : Endianness) (s : Sign) (i : Nat)
+    (hi : i < 8 * n) (h64 : i < 64) :
+    (intOfBytes n bs e s).getLsbD i = (readUnsigned e bs).testBit i := by
+  cases s
+  · show ((BitVec.ofNat (8 * n) (readUnsigned e bs)).signExtend 64).getLsbD i = _
+    rw [BitVec.getLsbD_signExtend]
+    simp only [hi, h64, decide_true, Bool.true_and, if_true, BitVec.getLsbD_ofNat]
+  · show ((BitVec.ofNat (8 * n) (readUnsigned e bs)).setWidth 64).getLsbD i = _
+    rw [BitVec.getLsbD_setWidth]
+    simp only [hi, h64, decide_true, Bool.true_and, BitVec.getLsbD_ofNat]
+
 /-! ## Device memory: frame lemmas -/
 
 theorem readRange_length (m : Mem) (a : Int) (n : Nat) : (m.readRange a n).length = n := by
